@@ -456,6 +456,8 @@ def check_case(ctx, case):
         pprobs, pend, detail = eval_impl(ctx, case)
     except Exception as e:  # harness-side trouble must be visible, never silent
         pprobs, pend, detail = ['harness exception %r' % (e,)], [], {}
+    if case.get('nomodel') and isinstance(pend, tuple):
+        pend = []          # property predicate only (the extracted model with table-driven codec oracles is quadratic in the number of records)
     _pending.append((case, pprobs, pend, detail))
     if len(_pending) >= 100:
         flush(ctx)
@@ -600,6 +602,8 @@ def run(ctx):
             {'tool': 'he', 'tree': t1, 'markers': [[2, 'aa']], 'idx_ops': [['append', '31000000']], 'algo': 1},
             {'tool': 'he', 'tree': t1, 'markers': [[2, 'aa']], 'idx_ops': [['rand', 2, '5a' * 27], ['flip', 4, [[p, 7] for p in range(0, 27, 3)]]], 'algo': 2},
             {'tool': 'he', 'tree': [], 'markers': [], 'idx_ops': []},
+            # an index larger than 65535 bytes (> 485 entries x 5 records x 27 bytes): records beyond that offset must be read as well
+            {'tool': 'he', 'tree': [['f%03d' % i, 'hex:41'] for i in range(500)], 'markers': [[j, 'aa'] for j in range(5 * 486, 5 * 500)], 'idx_ops': [], 'nomodel': True},
         ]
         for c in corpus:
             check_case(ctx, c)
